@@ -25,7 +25,7 @@ ASSUMPTIONS = [
     "virtual clock: asyncio timers fire in deadline order exactly as on a real clock; wall time is only a watchdog",
     "one caller at a time (concurrency is C06)",
 ]
-MUST = ["stale_fragment_while_idle", "auto_detected_object_silent", "public_entry_points", "truncated_answer", "stale_datagram_while_idle", "retry_branch", "max_retries_branch", "fragment_rearm", "immediate_retry_invalid", "tcp_connect_error",
+MUST = ["requests_around_transaction_id_wrap", "stale_fragment_while_idle", "auto_detected_object_silent", "public_entry_points", "truncated_answer", "stale_datagram_while_idle", "retry_branch", "max_retries_branch", "fragment_rearm", "immediate_retry_invalid", "tcp_connect_error",
         "connect_hang_bounded", "silent_exact", "success", "rejected"]
 EXHAUSTIVE = {"quick": True, "thorough": True}
 
@@ -303,6 +303,26 @@ def run_shard(spec):
                     sc["fullscript"] = list(script) + [f"entry={step[0]}"]
                     run_case(sc, part)
                     part.count("public_entry_points")
+        # a long-running process: the Modbus/TCP requests around the 65 536th transmission of the process end like any other
+        if spec["transport"] == "tcp":
+            from .. import env as env0_
+            g0 = env0_.goodwe()
+            probe_cmd = g0.protocol.ModbusTcpReadCommand(0xF7, 100, 2)
+            for _ in range(140000):          # advance the process-wide transaction counter to just below its wrap-around
+                try:
+                    if int.from_bytes(probe_cmd.request_bytes()[0:2], "big") >= 65525:
+                        break
+                except Exception:       # noqa  (building requests in a loop is C03's subject; here the requests that follow count)
+                    break
+            for ka in (False, True):
+                sc = scenario("tcp", "tcp", ka, 1, 1, ["now"] * 24, nreq=20)
+                sc["fullscript"] = ["20 answered requests around the 65 536th transmission of the process"]
+                run, vs = run_case(sc, part)
+                if not vs and all(c["outcome"] == "ok" for c in run.calls):
+                    part.count("requests_around_transaction_id_wrap")
+                elif not vs:
+                    part.violate("C04/tcp/ends-with-other-exception/not-ok", f"answered requests around the transaction id wrap ended {[c['outcome'] for c in run.calls]}",
+                                 {"scenario": sc})
         # an inverter object obtained through connect() WITHOUT a family (auto-detection), then a silent inverter: the budget the
         # caller asked for governs that request too
         from .. import env as env_, sims as sims_
